@@ -610,7 +610,8 @@ def r15_ref_patterns(toks, log):
 def s5_closure_specs(toks, specs, fn_name, log):
     """S5: the n-th closure literal `|x| EXPR` passed as a call argument gets the parameter / result types the directive
     names and ITS OWN BODY as postcondition: `|x: A| -> (r__: B) ensures r__ == EXPR { EXPR }`.  Nothing is assumed:
-    Verus checks the closure body against that postcondition like any other function."""
+    Verus checks the closure body against that postcondition like any other function.  A directive may instead state the
+    postcondition itself (`| ensures ...` over the result r__), which Verus likewise checks against the real body."""
     if not specs:
         return toks
     # closure literals: `|` directly after `(` or `,`
@@ -641,7 +642,7 @@ def s5_closure_specs(toks, specs, fn_name, log):
         if ordinal >= len(found):
             raise Unsupported("lost anchor: fn %s has %d closure literals, spec names closure %d" % (fn_name, len(found), ordinal))
         i, j, b0, k = found[ordinal]
-        params, ret = specs[ordinal]
+        params, ret, given_post = specs[ordinal]
         body = text_of(out[b0:k]).strip()
         names = [tt.text for tt in out[i + 1:j] if tt.kind == L.IDENT]
         want = [q.split(":")[0].strip() for q in params.split(",")]
@@ -650,6 +651,12 @@ def s5_closure_specs(toks, specs, fn_name, log):
         # the postcondition is the body itself written with the spec names of the operators (Verus' spec mode has no
         # operator overloading for user types): `a OP b` -> a.OP_spec(b), `-a` -> a.neg_spec(); other shapes are not handled
         bt = [tt for tt in out[b0:k] if not L.is_trivia(tt)]
+        if given_post:
+            # the directive states the closure's postcondition (over the result r__); Verus checks the real body against it
+            new = "|%s| -> (r__: %s) ensures %s { %s }" % (params, ret, given_post, body)
+            out = out[:i] + [L.Tok(L.IDENT, new, out[i].line)] + out[k:]
+            log["rules"]["S5"] = log["rules"].get("S5", 0) + 1
+            continue
         opn = {"+": "AddSpec::add_spec", "-": "SubSpec::sub_spec", "*": "MulSpec::mul_spec", "/": "DivSpec::div_spec"}
         if len(bt) == 3 and bt[0].kind == L.IDENT and bt[2].kind == L.IDENT and bt[1].text in opn:
             post = "vstd::std_specs::ops::%s(%s, %s)" % (opn[bt[1].text], bt[0].text, bt[2].text)
@@ -1234,10 +1241,10 @@ class Unit:
                             raise Unsupported("bad //@subst directive: " + nx)
                         spec.setdefault("subst", []).append((ms.group(1), ms.group(2)))
                     elif nx.startswith("//@closure "):
-                        mc = re.match(r"//@closure\s+(\d+)\|\s*\((.*)\)\s*->\s*(.*)$", nx)
+                        mc = re.match(r"//@closure\s+(\d+)\|\s*\((.*?)\)\s*->\s*([^|]*?)\s*(?:\|\s*ensures\s+(.*))?$", nx)
                         if not mc:
                             raise Unsupported("bad //@closure directive: " + nx)
-                        spec.setdefault("closures", {})[int(mc.group(1))] = (mc.group(2).strip(), mc.group(3).strip())
+                        spec.setdefault("closures", {})[int(mc.group(1))] = (mc.group(2).strip(), mc.group(3).strip(), (mc.group(4) or "").strip() or None)
                     elif nx.startswith("//@at "):
                         ma = re.match(r'//@at\s+"(.*?)"\s*\|(.*)$', nx)
                         if not ma:
